@@ -1,7 +1,10 @@
 (* C11: the defect of the pinned tree as a witness against the old closure rules, and non-vacuity of the theorems *)
 From Coq Require Import List NArith ZArith Bool String.
 From SudachiVerif Require Import Model.Codec Proofs.CodecProofs Proofs.CodecLexSetProofs.
-From SudachiVerif Require Model.CodecCheck Model.CodecIO.   (* keeps the case-file entry points in step with the facts *)
+From SudachiVerif Require Model.CodecCheck.   (* keeps the case-file entry points in step with the facts *)
+(* Model.CodecIO (packed literals of the case files, primitive 63-bit integers) is deliberately NOT required here: it is
+   built with the other models by the check driver, and requiring it would put Uint63's primitives and axioms into the
+   closure that the thorough tier's coqchk audits, although no theorem or witness uses them *)
 Import ListNotations.
 Open Scope N_scope.
 
